@@ -335,13 +335,17 @@ def cell_depth(cell):
     U.TICK.reset()
     limit = optree.MAX_RECURSION_DEPTH
     res = {}
-    fns = {'flatten': lambda: optree.tree_flatten(tree, namespace=ns),
-           'with_path': lambda: optree.tree_flatten_with_path(tree, namespace=ns),
-           'iter': lambda: list(optree.tree_iter(tree, namespace=ns))}
+    from vlib import gen
+    pred = gen.PREDICATES[cell.get('pred', 'none')]
+    fns = {'flatten': lambda: optree.tree_flatten(tree, is_leaf=pred, namespace=ns),
+           'with_path': lambda: optree.tree_flatten_with_path(tree, is_leaf=pred, namespace=ns),
+           'iter': lambda: list(optree.tree_iter(tree, is_leaf=pred, namespace=ns))}
     for name, fn in fns.items():
         o = outcome(fn)
         res[name] = o.get('type') if o['status'] == 'exc' else None
-    out = {'status': 'depth', 'verdicts': res, 'expect': 'RecursionError' if depth > limit else None}
+    inner = U.FN([1], None) if k == 'fn' else deep(k, 1, 1)
+    deepest = depth - 1 if (cell.get('pred') == 'holds_one_int' and depth >= 1 and pred(inner)) else depth
+    out = {'status': 'depth', 'verdicts': res, 'expect': 'RecursionError' if deepest > limit else None}
     if depth <= limit and cell.get('ops'):
         leaves, spec = optree.tree_flatten(tree, namespace=ns)
         other = optree.tree_structure(tree, namespace=ns)
@@ -820,6 +824,8 @@ class C16(runner.Prop):
         for k in DEPTH_KINDS:
             for d in (limit - 1, limit, limit + 1, limit + 2):
                 cells.append({'kind': 'depth', 'container': k, 'depth': d, 'ops': d == limit})
+                for pred in ('int_leaf', 'holds_one_int'):
+                    cells.append({'kind': 'depth', 'container': k, 'depth': d, 'ops': False, 'pred': pred})
         for k in ('list', 'dict', 'od', 'dd', 'deque', 'custom', 'mutual', 'endless_flatten'):
             cells.append({'kind': 'selfref', 'container': k})
         cells.append({'kind': 'args'})
